@@ -46,6 +46,7 @@ var (
 	ErrInvalidBlockTimestamp               = errors.New("invalid block timestamp")
 	ErrInvalidWarpSignature                = errors.New("invalid warp signature")
 	ErrInvalidSignatureType                = errors.New("invalid signature type")
+	ErrInvalidChunkExpiry                  = errors.New("invalid chunk expiry")
 )
 
 type ChainState interface {
@@ -265,10 +266,12 @@ func (n *Node[T]) BuildBlock(ctx context.Context, parent Block, timestamp int64)
 		return Block{}, err
 	}
 
+	validityWindow := n.ruleFactory.GetRules(timestamp).GetValidityWindow()
 	availableChunkCerts := make([]*ChunkCertificate, 0)
 	for i, chunkCert := range gatheredChunkCerts {
-		// avoid building blocks with duplicate or expired chunk certs
-		if chunkCert.Expiry < timestamp || duplicates.Contains(i) {
+		// avoid building blocks with duplicate or expired chunk certs, or chunk certs
+		// that expire beyond the validity window (replay protection only tracks the window)
+		if chunkCert.Expiry < timestamp || chunkCert.Expiry > timestamp+validityWindow || duplicates.Contains(i) {
 			continue
 		}
 		availableChunkCerts = append(availableChunkCerts, chunkCert)
@@ -335,6 +338,16 @@ func (n *Node[T]) Verify(ctx context.Context, parent Block, block Block) error {
 			n.chainState,
 		); err != nil {
 			return fmt.Errorf("%w %s: %w", ErrInvalidWarpSignature, chunkCert.ChunkID, err)
+		}
+	}
+
+	// Every referenced chunk must be valid at the block timestamp: not expired and
+	// not further in the future than the validity window, which is as far back as
+	// the replay protection above looks for repeats.
+	validityWindow := n.ruleFactory.GetRules(block.Timestamp).GetValidityWindow()
+	for _, chunkCert := range block.ChunkCerts {
+		if err := validitywindow.VerifyTimestamp(chunkCert.Expiry, block.Timestamp, validityWindowTimestampDivisor, validityWindow); err != nil {
+			return fmt.Errorf("%w %s: %w", ErrInvalidChunkExpiry, chunkCert.ChunkID, err)
 		}
 	}
 
